@@ -19,6 +19,7 @@ import (
 
 func TestVerifC17DefaultChain(t *testing.T) {
 	defer vfstat.Flush()
+	vfstat.Quiet()
 	const U = "C17.defaultchain"
 	dir := t.TempDir()
 	seq := 0
